@@ -1,6 +1,6 @@
 (* Driver.v — entry points used by the OCaml driver (definitions only). *)
 From Coq Require Import List NArith Bool String.
-From SV Require Import Bytes Base64 Client Transport Server.
+From SV Require Import Bytes Base64 Client Transport Server RenameAbs.
 Import ListNotations.
 
 (* the model client reads an unsegmented stream; by C05 segmentation is irrelevant *)
@@ -24,3 +24,7 @@ Definition canned_step (fuel : nat) (o : op) (st : cstate) (buf : bytes) (chunks
 Definition mk_server (cfg : config) (store : list (bytes * bytes)) (active : option bytes)
            (choices : list N) (faults : list (nat * fault)) : sstate :=
   mkS cfg store active false false ANone [] choices faults 0 0 [].
+
+(* the abstract emulated rename on a server state, with a fault plan indexed by rename step *)
+Definition rename_abs_run (s : sstate) (old new : bytes) (plan : list (nat * fault)) : aresult * sstate :=
+  rename_abs (fun i => find_fault i plan) s old new.
